@@ -212,7 +212,22 @@ def par_rules(facts):
         okh = okp and nxt is None
     t.row(okh, hc.id, "loop-shape", "the hashing thread can leave its loop other than on the empty stop block, or skip "
           "hashing a received block (blocking recv, is_empty break, fill_le_bytes on every other block)", None, hc.loc())
-    t.rr.require_floor(4, "hash-thread obligations")
+    # single consumer: blocks reach the shared digest context in queue order only if nothing but the hashing thread feeds
+    # it.  Any other body of the module that calls a Fill method on the inner `Context` (e.g. a "hash in place when the
+    # queue is full" shortcut) lets a block overtake the ones still queued.
+    others = []
+    for b in facts.body_list:
+        if not (b.id.startswith("par::") or b.id.startswith("<par::")) or b.id == hc.id:
+            continue
+        for bi, tt in b.calls():
+            fn = tt.get("fn") or {}
+            if fn.get("name") in ("fill_le_bytes", "fill_interleaved") and fn.get("trait") == "source::Fill" \
+                    and re.search(r"source::Context\b", (fn.get("self_ty") or "") + " " + (fn.get("full") or "")):
+                others.append((b.id, b.loc(bi, "term")))
+    t.row(not others, others[0][0] if others else hc.id, "single-consumer",
+          "the shared digest context is also fed outside the hashing thread (%s): that block is hashed before the blocks "
+          "still waiting in the queue, so the MD5 is of a permutation of the input" % (others[:2],), {"other_feeders": others})
+    t.rr.require_floor(5, "hash-thread obligations")
     return [t.rr]
 
 
